@@ -12,5 +12,5 @@ git -C $W apply /verif/seeded/$id/patch.diff 2>/dev/null || git -C $W apply --3w
 cd /verif
 for p in "$@"; do
   out=$(GVC_OUT=$W.out bin/gvc check --prop $p --repo $W 2>&1); rc=$?
-  echo "== $id $p exit=$rc"; echo "$out" | egrep 'VIOLATION|obligation|broken' | head -8
+  echo "== $id $p exit=$rc"; echo "$out" | egrep 'VIOLATION|obligation|broken|bounded audit:' | head -8
 done
